@@ -170,11 +170,28 @@ def hard_time_limit(seconds: float):
         signal.signal(signal.SIGALRM, old)
 
 
-def exec_ih5(ops, cls_name="IH5Record", op_timeout=15) -> Dict[str, Any]:
-    """Run a history on a fresh IH5 record; per step result + view; raw containers at the end."""
+def exec_ih5(ops, cls_name="IH5Record", op_timeout=15, final_stages=False) -> Dict[str, Any]:
+    """Run a history on a fresh IH5 record; per step result + view; raw containers at the end.
+
+    ["bnd"] = commit_patch + create_patch; ["reopen", "name"|"files"] = close (commits) and open
+    the record again in mode r+ by record name / by explicit file list (a new patch is created):
+    both are steps like any other, the view is taken after them.  With final_stages the record is
+    finally committed, closed and reopened read-only by name and by file list, with a view each
+    ("final": [[stage, view], ...])."""
     from metador_core.ih5.container import IH5Record, IH5MFRecord
     cls = IH5Record if cls_name == "IH5Record" else IH5MFRecord
     steps = []
+    final = []
+
+    def read(r):
+        try:
+            with hard_time_limit(op_timeout):
+                return dump_view(r)
+        except vlib.CaseTimeout:
+            return ["READ-TIMEOUT"]
+        except Exception as e:  # noqa: BLE001
+            return ["READ-ERROR", f"{type(e).__name__}: {e}"[:200]]
+
     with vlib.workdir("ih5") as d:
         rec = cls(d / "rec", "w")
         dead = None
@@ -188,6 +205,10 @@ def exec_ih5(ops, cls_name="IH5Record", op_timeout=15) -> Dict[str, Any]:
                         if op[0] == "bnd":
                             rec.commit_patch()
                             rec.create_patch()
+                        elif op[0] == "reopen":
+                            files = list(rec.ih5_files)
+                            rec.close()
+                            rec = cls(files if op[1] == "files" else d / "rec", "r+")
                         else:
                             apply_op(rec, op)
                     res = "T"
@@ -198,17 +219,24 @@ def exec_ih5(ops, cls_name="IH5Record", op_timeout=15) -> Dict[str, Any]:
                 except Exception as e:  # noqa: BLE001
                     res = "F"
                     err = f"{type(e).__name__}: {e}"[:200]
-                try:
-                    with hard_time_limit(op_timeout):
-                        view = dump_view(rec)
-                except vlib.CaseTimeout:
+                view = read(rec)
+                if view == ["READ-TIMEOUT"]:
                     dead = "timeout-in-read"
                     steps.append(["X", dead])
                     continue
-                except Exception as e:  # noqa: BLE001
-                    view = ["READ-ERROR", f"{type(e).__name__}: {e}"[:200]]
                 steps.append([res, view] if res == "T" else [res, view, err])
             files = list(rec.ih5_files)
+            if final_stages and not dead:
+                try:
+                    rec.commit_patch()
+                    final.append(["final-commit", read(rec)])
+                    rec.close()
+                    for stage, arg in (("reopen-by-name", d / "rec"), ("reopen-by-files", files)):
+                        rec = cls(arg, "r")
+                        final.append([stage, read(rec)])
+                        rec.close()
+                except Exception as e:  # noqa: BLE001
+                    final.append(["final-error", ["READ-ERROR", f"{type(e).__name__}: {e}"[:200]]])
             rec.close()
             raw = [dump_raw(f) for f in files] if not dead else None
         finally:
@@ -216,7 +244,7 @@ def exec_ih5(ops, cls_name="IH5Record", op_timeout=15) -> Dict[str, Any]:
                 rec.close()
             except Exception:  # noqa: BLE001
                 pass
-    return {"steps": steps, "raw": raw}
+    return {"steps": steps, "raw": raw, "final": final}
 
 
 def exec_h5(ops) -> Dict[str, Any]:
@@ -226,7 +254,7 @@ def exec_h5(ops) -> Dict[str, Any]:
     with vlib.workdir("h5") as d:
         with h5py.File(d / "plain.h5", "w") as f:
             for op in ops:
-                if op[0] == "bnd":
+                if op[0] in ("bnd", "reopen"):
                     res = "T"
                 else:
                     try:
